@@ -192,6 +192,9 @@ pub struct Group {
     pub last_leave: Option<usize>,
     /// a persistent member's connection ended with unacknowledged deliveries of this group
     pub persistent_unacked_leave: bool,
+    /// a forward that this group may have made could not be told from one of another subscription of the same
+    /// client: the ledger may miss a delivery, so completeness is not judged for this group any more
+    pub tainted: bool,
 }
 
 pub struct Model {
@@ -1201,6 +1204,10 @@ impl Model {
             // (subscription identifiers have already narrowed the candidates: whatever is left shares them)
             if plain_qos_match == shared_qos_match {
                 self.conns[conn].ambiguous = true;
+                for i in shared.iter() {
+                    let (g, f) = { let s = &self.sessions[&client].subs[*i]; (s.group.clone().unwrap_or_default(), s.filter.clone()) };
+                    self.groups.entry((g, f)).or_default().tainted = true;
+                }
             } else if shared_qos_match && !plain_qos_match {
                 hits.clear();
             }
@@ -1241,6 +1248,20 @@ impl Model {
             // which of this client's group memberships explains the forward: the granted QoS comes first (a membership
             // that was repeated with another QoS may keep forwarding with the first one and so fits any), then a group
             // that has not handed this message to anybody yet (every group delivers it once)
+            // several memberships of this client could explain the forward and neither the granted QoS (exactly one
+            // candidate with it, none repeated with another QoS) nor anything else tells them apart: the
+            // identity-based clauses are not judged for this connection any more
+            if pool.len() > 1 {
+                let same_qos = pool.iter().filter(|i| self.sessions[&client].subs[**i].qos == p.qos).count();
+                let repeated = pool.iter().any(|i| self.sessions[&client].subs[*i].resubscribed_qos_changed);
+                if same_qos != 1 || repeated {
+                    self.conns[conn].ambiguous = true;
+                    for i in pool.iter() {
+                        let (g, f) = { let s = &self.sessions[&client].subs[*i]; (s.group.clone().unwrap_or_default(), s.filter.clone()) };
+                        self.groups.entry((g, f)).or_default().tainted = true;
+                    }
+                }
+            }
             let pick = pool
                 .iter()
                 .copied()
@@ -1256,7 +1277,12 @@ impl Model {
                             .unwrap_or(false),
                         _ => false,
                     };
-                    (s.qos != p.qos && !s.resubscribed_qos_changed, already, s.qos != p.qos)
+                    // (a group that came into being after the message was accepted explains it last)
+                    let predates = match (midx, &s.group) {
+                        (Some(mi), Some(g)) if !payload.is_empty() => self.groups.get(&(g.clone(), s.filter.clone())).map(|gr| mi < gr.since).unwrap_or(false),
+                        _ => false,
+                    };
+                    (s.qos != p.qos && !s.resubscribed_qos_changed, predates, already, s.qos != p.qos)
                 })
                 .unwrap_or(pool[0]);
             let (gname, filter, path, closed_at, last, sub_qos, requal) = {
@@ -1271,7 +1297,8 @@ impl Model {
                 push_out(self, Some(path), None, false);
                 return;
             };
-            let ambiguous = self.conns[conn].ambiguous || payload.is_empty();
+            let tainted = self.groups.get(&(gname.clone(), filter.clone())).map(|g| g.tainted).unwrap_or(false);
+            let ambiguous = self.conns[conn].ambiguous || payload.is_empty() || tainted;
             let several = self.groups.keys().filter(|x| x.0 == gname).count() > 1;
             let g = self.groups.entry((gname.clone(), filter.clone())).or_default();
             if payload.is_empty() {
@@ -1279,6 +1306,8 @@ impl Model {
                 g.delivered.entry(mi).or_insert((client.clone(), conn));
             } else if g.redeliverable.remove(&mi) {
                 g.delivered.insert(mi, (client.clone(), conn));
+            } else if ambiguous {
+                g.delivered.entry(mi).or_insert((client.clone(), conn));
             } else if let Some((who, _)) = g.delivered.get(&mi) {
                 out.push(
                     Record::new(p17, "shared-twice", format!("group '{gname}': '{payload}' forwarded to '{client}' after it had been forwarded to '{who}'"))
@@ -1298,7 +1327,7 @@ impl Model {
                     out.push(Record::new(p17, "shared-out-of-order", format!("group '{gname}': '{client}' got '{payload}' after a later message")).fact("persistent_member_left_unacked", pl).fact("group_name_on_several_filters", several));
                 }
             }
-            if sub_qos != p.qos {
+            if sub_qos != p.qos && !ambiguous {
                 out.push(Record::new(p17, "forward-qos-mismatch", format!("'{client}': shared forward QoS {} but granted {}", p.qos, sub_qos)).fact("resubscribed_with_other_qos", requal));
             }
             let s = &mut self.sessions.get_mut(&client).unwrap().subs[pick];
@@ -1586,6 +1615,10 @@ impl Model {
             // members must all be live and defined for the liveness clause to be judged
             let all_ok = g.members.iter().all(|m| self.live_of(m).map(|c| !self.conns[c].undefined && !self.conns[c].ambiguous).unwrap_or(false));
             if !all_ok {
+                continue;
+            }
+            if g.tainted {
+                self.eval("shared-complete-not-judged-ambiguous-ledger");
                 continue;
             }
             let missing: Vec<usize> = (g.since..self.log.len())
